@@ -1483,7 +1483,12 @@ func (eval Evaluator) Rescale(op0, opOut *rlwe.Ciphertext) (err error) {
 	level := op0.Level()
 	ringQ := eval.parameters.RingQ().AtLevel(level)
 
-	for i := range opOut.Value {
+	// The receiver takes the degree of the input.
+	if op0 != opOut {
+		opOut.Resize(op0.Degree(), opOut.Level())
+	}
+
+	for i := range op0.Value {
 		ringQ.DivRoundByLastModulusNTT(op0.Value[i], eval.buffQ[0], opOut.Value[i])
 	}
 
